@@ -91,9 +91,13 @@ def analyse_types(pid, suite, search=True):
     distinct = set()
     hist = collections.Counter()
     samples = []
+    sfilter = oracles.shape_filter(pid)
+    tmap0 = dict(suite['shapes'])
     for l in suite['cases']:
         op = l.split(' ', 1)[0]
         if op not in proj:
+            continue
+        if sfilter is not None and not sfilter(tmap0[l.split(' ')[2]]):
             continue
         cid = l.split(' ')[1]
         m, r = suite['mres'].get(cid), suite['rres'].get(cid)
@@ -150,7 +154,7 @@ def analyse_types(pid, suite, search=True):
                 'non-trivial when the implementation passed the alignment / minimum-size gate; distinct = distinct '
                 '(input, implementation observation) pairs among those.',
         'samples': samples or [{'case': suite['cases'][0]}],
-        'programs': len(suite['shapes']),
+        'programs': len([1 for sid, t in suite['shapes'] if sfilter is None or sfilter(t)]),
         'disagreements_checked': len(disagree),
         'oracle_evaluations': n_oracle,
         'outcome_histogram': {'%s %s' % k: v for k, v in sorted(hist.items())},
@@ -186,6 +190,31 @@ def run_property_types(pid, tier, seed):
                 break
         cov['neighbourhood_search'] = 'run' if sub else 'not applicable'
     return {'violations': viol, 'coverage': cov}
+
+
+def run_negative_c17(pid, tier, seed):
+    """negative program: a portable enum with a tag wider than one byte must be refused by the macro; if it is
+    accepted the program is run and must still report ALIGN == 1"""
+    hdir = os.path.join(vlib.VERIF, 'harness')
+    vlib.build_harness(type_shapes(tier, seed))
+    rc, out = vlib.sh('cargo build --offline --example c17_wide_tag', cwd=hdir, timeout=900)
+    viol = []
+    src = open(os.path.join(hdir, 'examples', 'c17_wide_tag.rs')).read()
+    if rc == 0:
+        rc2, out2 = vlib.sh(os.path.join(vlib.CACHE, 'target', 'debug', 'examples', 'c17_wide_tag'), timeout=60)
+        import re
+        m = re.search(r'align=(\d+)', out2)
+        if not m or m.group(1) != '1':
+            viol.append({'what': 'a type declared portable = true with tag_type = "u16" is accepted, implements Portable '
+                                 'and reports %s' % out2.strip()[:80], 'case': 'program harness/examples/c17_wide_tag.rs',
+                         'program': src, 'impl': out2.strip(), 'concrete': True, 'source': 'negative program'})
+        outcome = 'accepted: ' + out2.strip()[:60]
+    elif 'portable' in out and 'panicked' in out:
+        outcome = 'refused by the macro'
+    else:
+        raise vlib.BuildError('negative program c17_wide_tag (unexpected compiler error)', out)
+    return {'violations': viol, 'coverage': {'negative_programs': [{'program': 'harness/examples/c17_wide_tag.rs',
+                                                                    'outcome': outcome}]}}
 
 
 def replay(pid, path):
